@@ -190,6 +190,19 @@ Statics(S) == {l \in S : l.st}
 \* Replace the host name h (if any) of leases in L by none.
 Unname(L, h) == {IF h # "" /\ l.host = h THEN [l EXCEPT !.host = ""] ELSE l : l \in L}
 
+\* The tables that L may become when the name h goes to a new reservation:
+\* the (dynamic) lease that has it loses it and is left without a name or
+\* gets, at once, the name derived from its address (the alternative one
+\* where that is taken) -- the statement does not say which.
+Renames(L, h) ==
+    IF h = "" \/ \A l \in L : l.host # h THEN {L}
+    ELSE LET l    == CHOOSE x \in L : x.host = h
+             rest == L \ {l}
+             free(n) == n # h /\ \A o \in rest : o.host # n
+             names == {""} \cup (IF free(GenName(l.ip)) THEN {GenName(l.ip)}
+                                 ELSE {n \in {AltName(l.ip)} : free(n)})
+         IN  {rest \cup {[l EXCEPT !.host = n]} : n \in names}
+
 \* Add a reservation (m, a, h).  It MUST be refused when the address is the
 \* gateway or outside the subnet, when the address, the client or the name
 \* already belongs to a reservation.  Otherwise it is carried out: dynamic
@@ -202,9 +215,9 @@ AddStaticOut(S, m, a, h) ==
                  \/ \E l \in Statics(S) : l.ip = a \/ l.mac = m \/ (h # "" /\ l.host = h)
         evict == {l \in S : ~l.st /\ (l.mac = m \/ l.ip = a)}
         soft  == \E l \in S : ~l.st /\ l.mac # m /\ (l.ip = a \/ (h # "" /\ l.host = h))
-        acc   == Outc(Unname(S \ evict, h) \cup {Lease(m, a, TRUE, TRUE, h)}, Ok)
+        acc   == {Outc(T \cup {Lease(m, a, TRUE, TRUE, h)}, Ok) : T \in Renames(S \ evict, h)}
     IN  IF hard THEN {Outc(S, Err)}
-        ELSE {acc} \cup (IF soft THEN {Outc(S, Err)} ELSE {})
+        ELSE acc \cup (IF soft THEN {Outc(S, Err)} ELSE {})
 
 \* Change address and name of the reservation of client m.  Same mandatory
 \* refusals; admissible refusals additionally when the client's lease is not
@@ -219,9 +232,9 @@ UpdateStaticOut(S, m, a, h) ==
         evict  == {o \in others : ~o.st /\ o.ip = a}
         soft   == \/ ~l.st \/ h = ""
                   \/ \E o \in others : ~o.st /\ (o.ip = a \/ (h # "" /\ o.host = h))
-        acc    == Outc(Unname(others \ evict, h) \cup {Lease(m, a, TRUE, TRUE, h)}, Ok)
+        acc    == {Outc(T \cup {Lease(m, a, TRUE, TRUE, h)}, Ok) : T \in Renames(others \ evict, h)}
     IN  IF hard THEN {Outc(S, Err)}
-        ELSE {acc} \cup (IF soft THEN {Outc(S, Err)} ELSE {})
+        ELSE acc \cup (IF soft THEN {Outc(S, Err)} ELSE {})
 
 \* Remove the reservation (m, a).  Asked to remove a dynamic lease through
 \* this call the server may refuse or comply (statement silent).  When there
@@ -232,6 +245,15 @@ RemoveStaticOut(S, m, a) ==
     IF mine = {} THEN {Outc(S, Err), Outc(S, Ok)}
     ELSE LET l == CHOOSE x \in mine : TRUE IN
          IF l.st THEN {Outc(S \ {l}, Ok)} ELSE {Outc(S \ {l}, Ok), Outc(S, Err)}
+
+\* The same for the DHCPv4 table, one latitude less: a dynamic lease that its
+\* client HOLDS (the last DHCPACK still covers it) must not be removed through
+\* this call -- the client goes on using the address, and the next client
+\* would be given it as well.  (RemoveStaticOut above is kept as it was for
+\* the modules that extend this one.)
+RemoveStatic4Out(S, m, a) ==
+    LET heldDyn == {l \in Of(S, m) : l.ip = a /\ ~l.st /\ Held(l)} IN
+    IF heldDyn # {} THEN {Outc(S, Err)} ELSE RemoveStaticOut(S, m, a)
 
 \* ------------------------------------------------------------------ restart
 \* The table is reloaded from disk D: "a restart restores the same table and
@@ -256,7 +278,7 @@ UpdEnabled(S, m)      == \/ Cardinality(Statics(S)) < MaxStatic
                          \/ \A l \in Of(S, m) : l.st
 UpdateStatic(m, a, h) == /\ UpdEnabled(ls, m)
                          /\ \E o \in UpdateStaticOut(ls, m, a, h) : Take(o)
-RemoveStatic(m, a)    == \E o \in RemoveStaticOut(ls, m, a) : Take(o)
+RemoveStatic(m, a)    == \E o \in RemoveStatic4Out(ls, m, a) : Take(o)
 Restart               == \E o \in RestartOut(disk) : Load(o)
 
 Kinds     == {"selecting", "initreboot", "renew"}
@@ -296,6 +318,10 @@ NoReuseBeforeAnnouncedExpiry ==
       IN  \A o \in outs : Gives(o) =>
             /\ \A l \in ls : l.ip = o.out.ip /\ l.mac # m => ~Held(l)
             /\ o.out.k = "ack" => \A l \in On(o.dst, o.out.ip) : l.mac = m /\ (l.st \/ l.rem = o.out.t)
+\* ... nor is the table entry of such a lease taken away by the call that
+\* removes reservations (the client would go on using the address).
+RemoveKeepsHeldDynamic ==
+    \A l \in ls : ~l.st /\ Held(l) => \A o \in RemoveStatic4Out(ls, l.mac, l.ip) : l \in o.dst
 \* "and a client holds at most one lease"
 OneLeasePerClient == \A l1, l2 \in ls : l1.mac = l2.mac => l1 = l2
 \* "dynamic addresses lie inside the configured pool and never coincide with
@@ -362,7 +388,7 @@ Edges(S, D) ==
           ELSE {})
     \cup UNION {E(S, "UpdateStatic", m, "", a, h, UpdateStaticOut(S, m, a, h), {Err})
                 : m \in {x \in Macs : UpdEnabled(S, x)}, a \in StatAddrs, h \in StaticHosts}
-    \cup UNION {E(S, "RemoveStatic", m, "", a, "", RemoveStaticOut(S, m, a), {Err, Ok}) : m \in Macs, a \in ReqAddrs}
+    \cup UNION {E(S, "RemoveStatic", m, "", a, "", RemoveStatic4Out(S, m, a), {Err, Ok}) : m \in Macs, a \in ReqAddrs}
     \cup E(S, "Restart", "", "", 0, "", RestartOut(D), {Err})
 EmitState ==
     PrintT(<<"@@V", ToJson([s |-> EncS(ls),
